@@ -915,7 +915,8 @@ fn analyze_partial_pattern(
 
     // Check if the original value type could be multiple types (for adding type checks)
     let value_type_sources = extract_field_sources(program, value_type_id);
-    let needs_type_check = value_type_sources.len() > 1;
+    let needs_type_check =
+        value_type_sources.len() > 1 || has_variants_without_fields(program, value_type_id);
 
     // Narrowed type accumulated per matchable variant, reconstructed with field-level precision so
     // a later branch's complement reflects the field check (e.g. `mode: R | A` after `=(mode: W)`).
@@ -1107,6 +1108,22 @@ fn analyze_partial_pattern(
     Ok((binding_sets, narrowed_type_id))
 }
 
+/// Whether the value's type has variants that are not field sources at all (`'int`, `'bin`, a
+/// function …): a value of such a variant must be turned away by a runtime type check before
+/// any field is read from it (`=(x)` on `'int | A[x: 'int]` holding 5).
+fn has_variants_without_fields(program: &Program, value_type_id: usize) -> bool {
+    let variants: Vec<usize> = match program.lookup_type(value_type_id) {
+        Some(Type::Union(variants)) => variants.clone(),
+        _ => vec![value_type_id],
+    };
+    variants.iter().any(|variant_id| {
+        !matches!(
+            program.lookup_type(*variant_id),
+            Some(Type::Tuple(_) | Type::Partial { .. })
+        )
+    })
+}
+
 fn analyze_star_pattern(
     program: &mut Program,
     name: Option<&String>,
@@ -1129,7 +1146,8 @@ fn analyze_star_pattern(
 
     // If the value could be one of several variants at runtime, a type check is needed to
     // discriminate the matching variant (and, for a named star, to enforce the name).
-    let needs_type_check = all_sources.len() > 1;
+    let needs_type_check =
+        all_sources.len() > 1 || has_variants_without_fields(program, value_type_id);
 
     // Create a binding set for each matching field source
     let mut binding_sets = vec![];
